@@ -89,6 +89,17 @@ Example var_watch_example :
   var_values (wrun var_cfg [(100, ov 3); (110, ov 4); (120, ov 3)] var_x0) = [4; 3].
 Proof. reflexivity. Qed.
 
+(* the global item's "inited" flag matters: before anything was reported its data is the zero fill, which is not
+   a reported value - a first change TO zero (3 -> 0) is reported (first line); a machine that took the zero fill
+   for "0 was reported already" (g_init forced to true) would swallow it (second line) *)
+Definition var_x0_zero_reported : xpart :=
+  {| xs := []; pend := []; w_inited := false; w_cpu := (-1)%Z; v_copy := Some 3; g_init := true; g_val := 0;
+     xout := [] |}.
+Lemma var_first_change_to_zero :
+  var_values (wrun var_cfg [(100, ov 3); (110, ov 0)] var_x0) = [0] /\
+  var_values (wrun var_cfg [(100, ov 3); (110, ov 0)] var_x0_zero_reported) = [].
+Proof. split; reflexivity. Qed.
+
 (* LEGACY (before aa8baff): the thread's copy was never updated, so a change back to the value the
    variable had at the thread's first hook was not reported (3 -> 4 -> 3: one event) *)
 Lemma var_watch_legacy_refuted :
